@@ -55,7 +55,8 @@ def run(tier):
     variants = [(s, p, e) for s in ('default', 'legacy') for p in engrun.POLICIES[1:] for e in (False, True)]
     for nm, P in progs:
         rnd.shuffle(variants)
-        for (s, p, e) in variants[:K]:
+        # the fixed shapes are small: they get every (scheduler, policy, eviction) variant
+        for (s, p, e) in (variants if not nm.startswith('det') else variants[:K]):
             jobs.append(dict(prog=P, scheduler=s, policy=p, seed=rnd.randrange(1 << 30), label=nm, evict=e))
     traces = engcheck.run_jobs(jobs)
     errs = [t for t in traces if 'error' in t]
@@ -112,7 +113,7 @@ def run(tier):
     common.write_evidence(PID, tier, 'model_checking', {
         'states': max(1, states), 'transitions': max(1, trans), 'traces_validated_against_impl': len(traces),
         'evaluations': len(traces), 'distinct_nontrivial': len([1 for nm, ts in by.items() if len(ts[0]['steps'][-1]['obs']['tk']) >= 3]),
-        'rule': '%d programs of the deterministic class x %d runs each (both schedulers, 7 schedule policies, specification-cache eviction '
+        'rule': '%d programs of the deterministic class x %d runs each - the fixed catalogue shapes x all 28 variants - (both schedulers, 7 schedule policies, specification-cache eviction '
                 'on/off between steps); non-trivial = programs with at least 3 task executions' % (len(by), K),
         'programs': len(by), 'runs_per_program': K, 'model_runs': model_info,
         'samples': [{'yaml': by[labels[0]][0]['meta']['yaml'], 'final': final_outcome(by[labels[0]][0])}],
